@@ -223,12 +223,20 @@ def run_check(prop: str, tier: str, seed: int, replay_path: str = "") -> int:
                 broken.append({"kind": "correspondence", "case": dsg})
             ctx.t0 = time.time()
             orc = mod.oracle(ctx, intensive=bool(broken), hints=[d for d in corr.disagreements])
-    except Exception as ex:
+    except KeyboardInterrupt:
+        raise
+    except BaseException as ex:  # noqa  (the library may call sys.exit(): SystemExit is not an Exception)
         C.log(traceback.format_exc())
-        print(f"INFRA-ERROR property={prop} {ex!r}")
-        if drv:
-            drv.close()
-        return 2
+        if broken and not replay_path:
+            # an obligation is already broken and the failing-input search itself was stopped by an exception escaping the library
+            # (e.g. sys.exit() inside a scheduler): decided as "no failing input found", with the exception recorded
+            broken.append({"kind": "search-aborted", "error": repr(ex)})
+            orc.notes.append(f"failing-input search aborted by {ex!r}")
+        else:
+            print(f"INFRA-ERROR property={prop} {ex!r}")
+            if drv:
+                drv.close()
+            return 2
     if drv:
         drv.close()
 
